@@ -29,7 +29,9 @@ def rows():
             for shape, corrupt in SHAPES:
                 if shape in ('R', 'A') and corrupt:
                     corrupt = (shape, corrupt)
-                out.append({'opts': list(opts), 'enc': enc, 'shape': shape, 'corrupt': list(corrupt) if corrupt else None})
+                # delivered over HTTP-POST or HTTP-Redirect (the SP has an assertion-consumer endpoint for either)
+                for binding in ('post', 'redirect'):
+                    out.append({'opts': list(opts), 'enc': enc, 'shape': shape, 'corrupt': list(corrupt) if corrupt else None, 'binding': binding})
     return out
 
 
@@ -58,6 +60,10 @@ def run_row(case):
     r, a0 = build.standard(now, rid=rid, aid=ident.get('aid', 'id-a-1'),
                            name_id={'text': ident.get('name', 'subject-0001'), 'format': build.TRANSIENT})
     vals = ident.get('values', ['Alice'])
+    redirect = row.get('binding') == 'redirect'
+    if redirect:
+        r['destination'] = spside.ACS_REDIRECT
+        a0['subject']['confirmations'][0]['data']['recipient'] = spside.ACS_REDIRECT
     a0['attributes'] = [{'name': 'urn:oid:2.5.4.42', 'name_format': 'urn:oasis:names:tc:SAML:2.0:attrname-format:uri', 'friendly_name': 'givenName', 'values': vals}]
     idp_keys = ident.get('idp_keys', 'signing')
     if ident.get('enc_advice') and not row['enc']:
@@ -67,6 +73,12 @@ def run_row(case):
         inner['signature'] = build.sig_template(inner['id'], 'sha256', ('x509', world.cert_body(1)))
         ix = build.sign(build.assertion_xml(inner), build.ASSERTION_NODE, inner['id'], 1)
         a0['advice'] = '<saml:EncryptedAssertion>%s</saml:EncryptedAssertion>' % build.encrypt_raw(ix, 2, enc_id='EDADV')
+    if ident.get('plain_advice') and not ident.get('enc_advice'):
+        # proxy shape: the assertion carries, in clear inside its Advice, an assertion validly signed by the IdP; that signature is not the outer assertion's own
+        inner = dict(a0, id=a0['id'] + '-adv', attributes=[{'name': 'urn:oid:2.5.4.12', 'name_format': 'urn:oasis:names:tc:SAML:2.0:attrname-format:uri', 'friendly_name': 'title', 'values': ['x']}])
+        inner.pop('authn', None)
+        inner['signature'] = build.sig_template(inner['id'], 'sha256', ('x509', world.cert_body(1)))
+        a0['advice'] = build.sign(build.assertion_xml(inner), build.ASSERTION_NODE, inner['id'], 1)
     alist = [a0]
     if n_ass == 2:
         a1 = dict(a0, id=a0['id'] + '-b')
@@ -94,7 +106,7 @@ def run_row(case):
     if ident.get('per_request'):
         # the assertion is encrypted for a one-time certificate whose private key the application hands over with the outstanding request
         kw['outstanding_certs'] = {'id-req-1': {'key': open(world.key(4)).read(), 'cert': open(world.crt(4)).read()}}
-    verdict = spside.deliver(sp, doc, **kw)
+    verdict = spside.deliver(sp, doc, binding=world.REDIRECT if redirect else None, **kw)
     want = expected_accept(wrs, was, wors, 'R' in shape, 'A' in shape, corrupt is None)
     if idp_keys in ('encryption-only', 'none') and shape != 'none':
         want = False        # a signature that is present cannot verify
@@ -110,7 +122,7 @@ def run_row(case):
         if idn['name_id'] != ident.get('name', 'subject-0001') or idn['ava'].get('givenName') != [v.strip() for v in vals]:
             raise Violation('accepted-identity-differs', 'accepted identity %r differs from the signed one' % (idn,))
     nt = any(row['opts']) or shape != 'none'
-    return ('accept' if got else 'reject') + '|' + shape + ('|enc' if row['enc'] else '') + ('|corrupt' if corrupt else ''), nt
+    return ('accept' if got else 'reject') + '|' + shape + ('|enc' if row['enc'] else '') + ('|corrupt' if corrupt else '') + ('|redirect' if redirect else ''), nt
 
 
 def generated_strategy():
@@ -121,7 +133,8 @@ def generated_strategy():
                                    'alg': st.sampled_from(build.HASHES), 'n': st.just(1),
                                    # the client loaded from an SPConfig or from the role-neutral Config; encrypted assertions for a configured key pair or for a per-request key
                                    'config_class': st.sampled_from(['sp', 'sp', 'generic']), 'per_request': st.booleans(),
-                                   'idp_keys': st.sampled_from(['signing', 'signing', 'two-first', 'two-second', 'encryption-only', 'none']), 'enc_advice': st.booleans()})
+                                   'idp_keys': st.sampled_from(['signing', 'signing', 'two-first', 'two-second', 'encryption-only', 'none']), 'enc_advice': st.booleans(),
+                                   'plain_advice': st.booleans()})
     return st.tuples(st.sampled_from(rows()), ident).map(lambda t: dict(t[0], ident=t[1]))
 
 
